@@ -1,4 +1,5 @@
 import DimodModel.Sym
+import DimodModel.SymCmp
 import DimodModel.Wire
 open Wire Sym
 
@@ -6,6 +7,8 @@ open Wire Sym
     `V <S|B|I|R> <label> <bias> <lb|-> <ub|->`, `C <q>`, `E <S|B> <offset>` (variable-free BQM), `ADD a b`, `SUB a b`, `MUL a b`, `NEG a`,
     `DIV <q> a`, `POW <n> a`, `IADD a b`, `ISUB a b`, `IMUL a b`, `IDIV <q> a`, `Q0`, `Q1 a`,
     `CMP <LE|GE|EQ|RLE|RGE|REQ> <q> a` (comparison with a number),
+    `CMP2 <LE|GE|EQ> a b` (comparison of two arbitrary operands), `CON <LE|GE|EQ> a b` (the constraint a CQM stores for it:
+    `ok con <sense> <rhs> qm …`),
     `Q3 a b c`, `VIEWO a` / `VIEWC a` (objective / constraint view), `ADDS a` … (`t op t`).
     Answer: `err <class>` | `ok num <q>` | `ok <bqm:S|bqm:B|qm|view> <vars>;<quad>;<offset>` with
     vars = `label:vt:lb:ub:bias,…` in model order and quad = `i:j:bias,…` (variable positions, i ≤ j,
@@ -92,9 +95,28 @@ def answerCmp (kind q : String) (rest : List String) : String :=
       | .error er => "err " ++ showErr er
   | _, _ => "bad-line"
 
+def answerCmp2 (con : Bool) (kind : String) (rest : List String) : String :=
+  let s : Option Sense := match kind with | "LE" => some .le | "GE" => some .ge | "EQ" => some .eq | _ => none
+  match s, parseExpr rest with
+  | some s, some (a, r) =>
+    match parseExpr r with
+    | some (b, []) =>
+      match buildCmp2 s a b with
+      | .ok (some k) =>
+        if con then
+          let c := conOfCmp k
+          s!"ok con {showSense c.sense} {showRat c.rhs} " ++ showVal (.mdl c.lhs)
+        else s!"ok cmp {showSense k.sense} {showRat k.rhs} " ++ showVal (.mdl k.lhs)
+      | .ok none => "ok bool"
+      | .error er => "err " ++ showErr er
+    | _ => "bad-line"
+  | _, _ => "bad-line"
+
 def answer (line : String) : String :=
   match (line.trimAscii.toString.splitOn " ").filter (· ≠ "") with
   | "CMP" :: kind :: q :: rest => answerCmp kind q rest
+  | "CMP2" :: kind :: rest => answerCmp2 false kind rest
+  | "CON" :: kind :: rest => answerCmp2 true kind rest
   | _ =>
   match parseExpr ((line.trimAscii.toString.splitOn " ").filter (· ≠ "")) with
   | some (e, []) =>
